@@ -25,6 +25,9 @@ type c15Svc struct {
 	Secrets  []string  `json:"secrets,omitempty"`
 	BuildSec []string  `json:"build_secrets,omitempty"`
 	Configs  []string  `json:"configs,omitempty"`
+	// Decoys: resource names that occur in the service without being references to the resource: the source of
+	// a bind / tmpfs / npipe mount, i.e. a relative path that happens to be spelled like a volume key
+	Decoys []string `json:"decoys,omitempty"`
 }
 
 type c15Step struct {
@@ -71,6 +74,9 @@ func genC15(r *zsimrt.Run) *c15Scenario {
 			if r.Chance("uses-res", 1, 2) {
 				*kind = append(*kind, sc.Resources[r.Draw("res", len(sc.Resources))])
 			}
+		}
+		if r.Chance("decoy", 1, 3) {
+			s.Decoys = append(s.Decoys, sc.Resources[r.Draw("decoy-res", len(sc.Resources))])
 		}
 		svcs[i] = s
 	}
@@ -151,6 +157,11 @@ func (sc *c15Scenario) project() *types.Project {
 			svc.Volumes = append(svc.Volumes, types.ServiceVolumeConfig{Type: types.VolumeTypeVolume, Source: v, Target: "/data"})
 		}
 		svc.Volumes = append(svc.Volumes, types.ServiceVolumeConfig{Type: types.VolumeTypeBind, Source: "/host", Target: "/bind"})
+		for i, d := range s.Decoys {
+			typ := []string{types.VolumeTypeBind, types.VolumeTypeTmpfs, types.VolumeTypeNamedPipe}[(i+len(s.Name)+len(d))%3]
+			svc.Volumes = append(svc.Volumes, types.ServiceVolumeConfig{Type: typ, Source: d, Target: "/decoy" + d})
+			svc.Volumes = append(svc.Volumes, types.ServiceVolumeConfig{Type: types.VolumeTypeVolume, Target: "/anon" + d}) // anonymous
+		}
 		for _, v := range s.Secrets {
 			svc.Secrets = append(svc.Secrets, types.ServiceSecretConfig{Source: v})
 		}
@@ -507,7 +518,8 @@ func runC15(sc *c15Scenario) *c15Result {
 		res, err := results[0], errs[0]
 		if expectErr {
 			if err == nil {
-				// accepted by the library although the model expected a refusal: judge the general invariants only
+				// accepted by the library although the model expected a refusal
+				problem("refusal-expected:"+base, fmt.Sprintf("%s(%v) on E=%s D=%s succeeded; a named service that is not enabled, or a required dependency that is not enabled, has to be reported", st.Op, st.Args, setOf(m.E), setOf(m.D)))
 				got := c15Observe(res)
 				all := map[string]bool{}
 				for k := range m.E {
